@@ -651,6 +651,25 @@ func (m *Machine) inLibrary(fn *ssa.Function) bool {
 	return true
 }
 
+// syncAfter is a second scheduling point right *after* a releasing / publishing
+// operation (unlock, close, channel send, atomic store, signal, broadcast,
+// WaitGroup.Done): the thread it releases may run before the releasing thread's
+// next plain writes, which is how publication-order bugs (a signal raised before
+// the data it announces is stored) become visible under block-atomic scheduling.
+func (m *Machine) syncAfter(at *frame) {
+	if m.ex.Mode == "conc" && len(m.threads) > 1 && !m.inEnv && at != nil && m.inLibrary(at.fn) {
+		live := 0
+		for _, t := range m.threads {
+			if !t.done {
+				live++
+			}
+		}
+		if live > 1 {
+			m.yield()
+		}
+	}
+}
+
 func (m *Machine) inTarget(fn *ssa.Function) bool {
 	for f := fn; f != nil; f = f.Parent() {
 		if f.Pkg != nil {
